@@ -185,6 +185,23 @@ func TestC04(t *testing.T) {
 			return map[string]any{"scenario": "Put parked between owner lookup and KV barrier while the owner leaves gracefully"}
 		}, "scenario:op-accepted-just-before-owner-leaves")
 	}
+	// scenario tier: a notification computed from an older view completes after a join
+	staleNotify := staleNotifyCompletesAfterJoin()
+	for i := 0; i < 3 && len(staleNotify) > 13 && staleNotify[:13] == "precondition:"; i++ {
+		staleNotify = staleNotifyCompletesAfterJoin() // a periodic predecessor check may take the held probe's place
+	}
+	if p := staleNotify; p != "" {
+		if len(p) > 13 && p[:13] == "precondition:" {
+			rec.Inconclusive("scenario-precondition")
+			t.Logf("stale-notify scenario: %s", p)
+		} else {
+			rec.Fail(t, "stale-read-after-late-notification", map[string]any{"schedule": "ring {1<<44, 2<<44, 3<<44}; 2<<44 crashes; Notify(1<<44) #1 at 3<<44 is held at its Ping of 2<<44; Notify(1<<44) #2 completes; 5<<43 joins via 3<<44 and takes (1<<44, 5<<43]; the Ping is released; Get/Put of a key in (2<<44, 5<<43) entering at 3<<44", "problem": p}, "%s", p)
+		}
+	} else {
+		rec.Case(true, "scenario:stale-notify-completes-after-join", func() any {
+			return map[string]any{"scenario": "a notification stuck in the liveness probe of a dead predecessor completes after a join changed the pointers; requests entering at that node for a moved key"}
+		}, "scenario:stale-notify-completes-after-join")
+	}
 	// scenario tier: the k-th transfer of a large leave hand-over fails; reads in the retry pause
 	for k := 1; k <= 3; k++ {
 		p, fired := leaveHandOverFailsAtKthImport(k)
